@@ -366,11 +366,24 @@ func c01TemplateSites(all []funcInfo) [][4]string {
 	return out
 }
 
+// c01SliceParam: a (non-variadic) parameter of type []interface{} - the stored condition lists of callbacks/preload.go
+func c01SliceParam(fd *ast.FuncDecl) string {
+	if fd.Type.Params == nil {
+		return ""
+	}
+	for _, p := range fd.Type.Params.List {
+		if src(p.Type) == "[]interface{}" && len(p.Names) == 1 {
+			return p.Names[0].Name
+		}
+	}
+	return ""
+}
+
 func genBindApi(o *out, pkgs map[string]map[string]*ast.File, all []funcInfo) {
 	var paths []c01ApiPath
 	type fnRow struct{ fn, file, param string }
 	var fns []fnRow
-	for _, rel := range []string{".", "clause"} {
+	for _, rel := range []string{".", "clause", "callbacks"} {
 		for _, fi := range funcsOf(pkgs[rel]) {
 			if fi.decl.Body == nil || strings.HasSuffix(fi.file, "_test.go") {
 				continue
@@ -382,6 +395,9 @@ func genBindApi(o *out, pkgs map[string]map[string]*ast.File, all []funcInfo) {
 				continue
 			}
 			p := c01VariadicParam(fi.decl)
+			if rel == "callbacks" && p == "" {
+				p = c01SliceParam(fi.decl)
+			}
 			if p == "" || p == "_" {
 				continue
 			}
